@@ -61,7 +61,7 @@ package utils
 
 //@ func ListPendingRequests props(C07)
 //@   requires client != nil
-//@   assigns heap
+//@   assigns ghost rdPos, ghost rdCalls
 
 //@ func ReadRequest props(C01,C04,C07)
 //@   requires client != nil
